@@ -362,7 +362,8 @@ def inModel : Ev → Bool
 
 /-- The event is one the log `cfg` represents faithfully:
     * a command that can change the dataset is in the table (for the script path: EVAL is);
-    * it is not a write with a random outcome (logged verbatim, the replaying server draws again);
+    * it is not a write with a random outcome logged verbatim (the replaying server draws again): either it is not
+      SPOP, or SPOP itself (not inside a script) is logged by its effect;
     * whenever an entry is written, the reader of the log is in the database the command ran in
       (always true with SELECT tracking; without it, the connection must be in the database the reader is in);
     * a pop served to a blocked client is logged. -/
@@ -370,7 +371,7 @@ def covered (cfg : Cfg) (st : LogSt) : Ev → Bool
   | .cmd _ _ _ raw =>
     nameOf raw = "SELECT" ∨
       ((Spec.writeNames.contains (effName raw) → isWrite cfg.writes (nameOf raw)) ∧
-       ¬ Spec.randomWrites.contains (effName raw) ∧
+       (¬ Spec.randomWrites.contains (effName raw) ∨ (cfg.byEffect ∧ nameOf raw = "SPOP")) ∧
        (isWrite cfg.writes (nameOf raw) → cfg.logSelect ∨ st.conn = st.file))
   | .wake db _ _ _ => cfg.logWake ∧ (cfg.logSelect ∨ db = st.file)
 
@@ -387,6 +388,21 @@ def Cfg.wf (cfg : Cfg) : Bool := !cfg.writes.contains "SELECT"
 /-- no deadline has passed when a command runs (`purge` finds nothing to drop in the database it runs on):
     the model then speaks about TTL *presence* only, never about remaining time -/
 def quietStep (c : Conn) (db now : Nat) : Bool := decide (purge now (getDb c.store db) = getDb c.store db)
+
+def isErrReply : Frame → Bool
+  | .error _ => true
+  | _ => false
+
+/-- The draw reported for a SPOP is what the command really took: members are reported only by a SPOP that answered
+    without an error (in particular not by one whose reported draw the machine rejects as impossible). -/
+def drawOk (q : Quirks) (c : Conn) : Ev → Bool
+  | .cmd _ now obs raw =>
+    nameOf raw = "SPOP" → obs.getD [] ≠ [] → isErrReply (KS.step q c.store c.cur now raw obs).2 = false
+  | .wake _ _ _ _ => true
+
+def drawsOk (q : Quirks) (c : Conn) : List Ev → Bool
+  | [] => true
+  | ev :: h => drawOk q c ev && drawsOk q (execEv q c ev) h
 
 def evDb (c : Conn) : Ev → Nat
   | .cmd _ _ _ _ => c.cur
